@@ -124,9 +124,18 @@ partial def step (st : St) (args : List String) : St × String :=
       | none => (st, "bad-op")
     | _, _, _ => (st, "bad-op")
   | ["hostdirs", pre, dir] =>
-    let p := fun (x : String) => if x == "-" then some [] else (x.splitOn ",").mapM parseNat
+    -- entries `hexname:type` in host listing order
+    let p := fun (x : String) => if x == "-" then some [] else (x.splitOn ",").mapM (fun e =>
+      match e.splitOn ":" with
+      | [n, t] => do
+        let nb ← parseBytes n
+        let ty ← parseNat t
+        pure (nb, ty)
+      | _ => none)
     match p pre, p dir with
-    | some a, some b => ({ st with host := { st.host with preEntries := a, dirEntries := b } }, "ok")
+    | some a, some b =>
+      ({ st with host := { st.host with preEntries := a.map (·.1.length), dirEntries := b.map (·.1.length),
+                                         preNames := a, dirNames := b } }, "ok")
     | _, _ => (st, "bad-op")
   | "designated" :: fn :: img :: rest =>
     match (st.imgs.find? (·.1 == img)).map (·.2), parseNats rest with
